@@ -411,4 +411,16 @@ def r15_6(ctx):
     ctx.check(okf, fc.fq, "filter_control", fc.where, "filter_control keeps/drops by the is_control field", "filter_control no longer filters on the is_control field")
 
 
-RULES = [r15_1, r15_2, r15_3, r15_4, r15_5, r15_6]
+def r15_7(ctx):
+    from .c03 import r3_5
+    from .common import borrow
+    borrow(ctx, r3_5, "R3.5", "R15.7", " [the styled export renders the recorded segments as truecolor: cached SGR strings must be keyed by the colour system]")
+
+
+def r15_8(ctx):
+    from .c03 import r3_3
+    from .common import borrow
+    borrow(ctx, r3_3, "R3.3", "R15.8", " [captured output equals what would have been written: colour removal happens in the renderer both paths share]")
+
+
+RULES = [r15_1, r15_2, r15_3, r15_4, r15_5, r15_6, r15_7, r15_8]
